@@ -143,8 +143,8 @@ def forall(vs, body, patterns=None):
     """Quantifier with E-matching patterns; falls back to z3's own choice when a pattern is not expressible
     (a term containing if-then-else, e.g. a map updated under a condition)."""
     if patterns:
-        ps = [z3.simplify(p) for p in patterns]
-        if not any(_has_ite(p) for p in ps):
+        ps = [p if not z3.is_expr(p) else z3.simplify(p) for p in patterns]
+        if not any(z3.is_expr(p) and _has_ite(p) for p in ps):
             try:
                 return z3.ForAll(vs, body, patterns=ps)
             except z3.Z3Exception:
